@@ -55,26 +55,23 @@ static void deliver_pending_from(unsigned from) {
 
 static int canary(int scen_cli) {
   int before;
+  coap_session_t *c2;
   if (scen_cli) {
-    /* the real server now answers the outstanding GET: deliver the request that the client sent first */
-    before = n_handler;
-    unsigned from = sim_ntx;
-    sim_deliver(&sim_tx[0]);             /* request -> server (handler call #1) */
-    deliver_pending_from(from);          /* response -> client (handler call #2) */
-    return n_handler >= before + 2;
+    c2 = cs;                               /* the attacked client session itself must still work */
+  } else {
+    cli2 = sim_new_context();
+    coap_register_response_handler(cli2, on_rsp);
+    c2 = sim_new_client(cli2, ntohs(ep->bind_addr.addr.sin.sin_port));
   }
-  cli2 = sim_new_context();
-  coap_register_response_handler(cli2, on_rsp);
-  coap_session_t *c2 = sim_new_client(cli2, ntohs(ep->bind_addr.addr.sin.sin_port));
   uint8_t tok[2] = {0xca, 0xfe};
-  coap_pdu_t *p = sim_make_pdu(c2, COAP_MESSAGE_CON, COAP_REQUEST_CODE_GET, 0x7777, tok, 2, NULL, 0);
+  coap_pdu_t *p = sim_make_pdu(c2, COAP_MESSAGE_NON, COAP_REQUEST_CODE_GET, 0x7777, tok, 2, NULL, 0);
   coap_add_option(p, COAP_OPTION_URI_PATH, 1, (const uint8_t *)"r");
   before = n_handler;
   unsigned from = sim_ntx;
-  sim_loglen = 0;
+  sim_loglen = 0; if (sim_logbuf) sim_logbuf[0] = 0;
   coap_send(c2, p);
   deliver_pending_from(from);
-  /* the response handler logged rsp@…:A:69:…  (2.05 = 69) with the canary token */
+  /* request handler + response handler ran, and the response handler logged 2.05 (= 69) with the canary token */
   return n_handler >= before + 2 && sim_logbuf && strstr(sim_logbuf, ":69:") && strstr(sim_logbuf, ":cafe:");
 }
 
@@ -113,11 +110,15 @@ static void step(char *line) {
     unsigned from = sim_ntx;
     coap_send(cs, p);
     deliver_pending_from(from);
-  } else if (!strcmp(scen, "blk")) {
+  } else if (!strcmp(scen, "blk") || !strcmp(scen, "blk0")) {
     uint8_t blk = 0x08 | 0x00;             /* NUM 0, M 1, SZX 0 (16 bytes) */
     coap_pdu_t *p = sim_make_pdu(cs, COAP_MESSAGE_CON, COAP_REQUEST_CODE_PUT, 0x1000, tok, 2, NULL, 0);
     coap_add_option(p, COAP_OPTION_URI_PATH, 1, (const uint8_t *)"b");
     coap_add_option(p, COAP_OPTION_BLOCK1, 1, &blk);
+    if (strcmp(scen, "blk0")) {            /* blk: Size1 = 48 announced; blk0: no Size1 (a client need not send it) */
+      uint8_t sz = 48;
+      coap_add_option(p, COAP_OPTION_SIZE1, 1, &sz);
+    }
     coap_add_data(p, 16, (const uint8_t *)"0123456789abcdef");
     unsigned from = sim_ntx;
     coap_send(cs, p);
